@@ -539,12 +539,8 @@ class SpaceImpl:
                 return f"{round(mid)}..{round(mid)}"
         return "?..?"
 
-    def draw_layers(self, specs):
-        """specs: [(name, mode, colour-or-cmap, alpha%, vmin, vmax, cbar)] with None for keys left out"""
-        m = L()
-        np, plt = m["np"], m["plt"]
-        before = {n: lay.data.copy() for n, lay in self.layers.items()}
-        datas = {n: d.astype(int).tolist() for n, d in before.items()}
+    @staticmethod
+    def layer_request(specs):
         request = {}
         for name, mode, arg, alpha, vmin, vmax, cbar in specs:
             port = {}
@@ -561,20 +557,47 @@ class SpaceImpl:
             if cbar is not None:
                 port["colorbar"] = cbar
             request[name] = port
+        return request
+
+    def draw_layers(self, specs, with_agents=False):
+        """specs: [(name, mode, colour-or-cmap, alpha%, vmin, vmax, cbar)] with None for keys left out.
+        with_agents: through draw_space(space, portrayal, propertylayer_portrayal=request), agents first"""
+        m = L()
+        np, plt = m["np"], m["plt"]
+        before = {n: lay.data.copy() for n, lay in self.layers.items()}
+        datas = {n: d.astype(int).tolist() for n, d in before.items()}
+        request = self.layer_request(specs)
+        snap = self.snapshot() if with_agents else None
         fig = m["Figure"]()
         ax = fig.add_subplot()
         with warnings.catch_warnings():
             warnings.simplefilter("ignore")
             try:
-                m["draw_property_layers"](self.space, request, ax)
+                if with_agents:
+                    m["draw_space"](self.space, self.portrayal, propertylayer_portrayal=request, ax=ax)
+                else:
+                    m["draw_property_layers"](self.space, request, ax)
             except Exception as e:
-                self.trace.append(("layers", self.fam, datas, specs, None, exc_tok(e)))
+                # with agents: the agents are drawn first; a request the layers refuse still raises
+                self.trace.append(("layers", self.fam, datas, specs, None, exc_tok(e), with_agents))
                 return exc_tok(e)
             finally:
                 plt.close("all")  # plt.colorbar creates a pyplot figure as a side effect
+            groups = self.read_axes(ax) if with_agents else None
         for n, lay in self.layers.items():
             if not np.array_equal(lay.data, before[n]):
                 self.trace.append(("layer-mutated", before[n].tolist(), np.asarray(lay.data).tolist()))
+        out, res = self.read_layers(fig, ax, specs, datas)
+        self.trace.append(("layers", self.fam, datas, specs, res, None, with_agents))
+        if with_agents:
+            self.trace.append(("draw", snap, groups, None, None, self.heap_before, self.heap_now()))
+            return "ok" + "".join(
+                f" | {mk} {z} n={len(mem)}" + "".join(" " + ",".join(t) for t in mem) for mk, z, mem in groups) + " ## " + out
+        return out
+
+    def read_layers(self, fig, ax, specs, datas):
+        m = L()
+        np = m["np"]
         colors = {tuple(m["to_rgba"](c)[:3]): c for c in LAYER_COLORS}
         bars = {}
         for cax in fig.axes[1:]:
@@ -645,8 +668,7 @@ class SpaceImpl:
         stray = sorted(set(bars) - set(drawn_names))
         if stray:
             out += " | stray-colorbars=" + "+".join(stray)
-        self.trace.append(("layers", self.fam, datas, specs, res, None))
-        return out
+        return out, res
 
     LEGACY_SPEC = {
         "cmap": ("v", "cmap", "viridis", None, 0, 9, False),
@@ -727,6 +749,8 @@ class SpaceImpl:
             return self.draw_layers([self.LEGACY_SPEC[w[1]]])
         if k == "drawlayers":
             return self.draw_layers([self.parse_spec(t) for t in w[1:]])
+        if k == "drawsp":
+            return self.draw_layers([self.parse_spec(t) for t in w[1:]], with_agents=True)
         raise ValueError(w)
 
 
@@ -1113,11 +1137,15 @@ def gen_space(R, tier):
             for n in names:
                 lines.append(f"layern {n} " + layer_vals())
             for _ in range(R.choice([1, 2, 2, 3])):
-                lines.append(gen_drawlayers(R, names))
+                line = gen_drawlayers(R, names)
+                if R.random() < 0.2:  # agents and layers on one Axes, through draw_space
+                    line = ("drawsp" if R.random() < 0.9 else "drawsp") + line[len("drawlayers"):]
+                lines.append(line)
                 if R.random() < 0.15:
                     lines.append(f"layern {R.choice(names)} " + layer_vals())
-    elif fam not in GRIDS and R.random() < 0.04:
-        lines.append(gen_drawlayers(R, []))  # only grids have property layers
+    elif fam not in GRIDS and R.random() < 0.05:
+        # only grids have property layers; an empty request through draw_space is skipped
+        lines.append(R.choice([gen_drawlayers(R, []), "drawsp", "drawsp v:color=red:-:-:-:n"]))
     for _ in range(R.randint(0, 6)):
         k = R.random()
         if k < 0.3 and where:
@@ -1438,8 +1466,13 @@ def oracle(sc, obs):
         elif kind == "layers":
             from fractions import Fraction
 
-            _, fam_, datas, specs, res, err = ev
+            _, fam_, datas, specs, res, err, with_agents = ev
             known = [sp for sp in specs if sp[0] in datas]
+            if with_agents and not specs:
+                # draw_space skips an empty request: nothing to refuse, nothing to draw
+                if err is not None or res:
+                    bad.append(f"layers-empty-request: draw_space with an empty layer request gave {err or res}")
+                continue
 
             def rng(sp):
                 flat = [v for col in datas[sp[0]] for v in col]
